@@ -684,6 +684,13 @@ func c13FactCutBound(fn *ssa.Function, resp map[ssa.Value]bool, bind map[ssa.Val
 			}
 			continue
 		}
+		if h.Signature.Results().Len() == 0 {
+			// procedure: the call itself counts when every return of the helper passes the fact
+			if c13VoidHelperEstablishes(h, idxs[k], fact, depth-1) {
+				ct.Instr(call)
+			}
+			continue
+		}
 		if ErrResultIndex(h.Signature) < 0 {
 			continue
 		}
@@ -757,6 +764,25 @@ func c13BoolHelperEstablishes(h *ssa.Function, idx int, bind map[ssa.Value]int64
 			continue
 		}
 		if c13AtomReach(h.Blocks[0], 0, a, ct) {
+			ok = false
+		}
+	}
+	c13SummaryMemo[key] = ok
+	return ok
+}
+
+// c13VoidHelperEstablishes: every return of the procedure h passes the fact
+// about h's parameter #idx.
+func c13VoidHelperEstablishes(h *ssa.Function, idx int, fact c13Fact, depth int) bool {
+	key := fmt.Sprintf("void|%p|%d|%s|%d", h, idx, fact.ID, depth)
+	if v, ok := c13SummaryMemo[key]; ok {
+		return v
+	}
+	c13SummaryMemo[key] = false
+	ct, _ := c13FactCutBound(h, Aliases(h.Params[idx]), nil, fact, depth)
+	ok := len(ct.edges) > 0 || len(ct.instrs) > 0
+	for _, r := range Returns(h) {
+		if ok && reach(h.Blocks[0], 0, r, ct) {
 			ok = false
 		}
 	}
